@@ -81,7 +81,9 @@ def w_ritz(ctx, rng, idx):
             solver = 'eig'
     with probe.oracle():
         g = gen.rand_tt(rng, dims, [1] * d, ranks, cplx)
-    kw = dict(number_ev=nev, solver=solver, sigma=sigma, conv_eps=0.0)
+    kw = dict(number_ev=nev, solver=solver, sigma=sigma, conv_eps=[0.0, 0.0, 1e-10, 1e-3][int(rng.integers(0, 4))])
+    if rng.random() < 0.3:
+        kw['real'] = False
     if B is not None:
         kw['operator_gevp'] = B
     ctx.describe({'op': 'evp.als', 'dims': dims, 'complex': cplx, 'gevp': gevp, 'nev': nev, 'solver': solver, 'sigma': sigma, 'ranks': ranks})
